@@ -75,7 +75,7 @@ impl<BS: BlockSizes> BlockCipherEncClosure for Closure<'_, BS> {
             let (last, rest) = blocks.split_last_mut().unwrap();
             let (penultimate, _) = rest.split_last_mut().unwrap();
             core::mem::swap(penultimate, last);
-        } else {
+        } else if !tail.is_empty() {
             let mut block = Block::<B>::default();
             block[..tail.len()].copy_from_slice(tail.get_in());
             xor(&mut block, &iv);
@@ -95,6 +95,12 @@ impl<BS: BlockSizes> BlockCipherDecClosure for Closure<'_, BS> {
         let Self { mut iv, buf } = self;
 
         let bs = B::BlockSize::USIZE;
+        if buf.len() == bs {
+            // single block: nothing to steal or swap, plain CBC
+            let (blocks, _) = buf.into_chunks();
+            cbc_dec(cipher, &mut iv, blocks);
+            return;
+        }
         let blocks_len = buf.len().div_ceil(bs);
         let main_blocks = blocks_len.saturating_sub(2);
 
